@@ -261,6 +261,8 @@ class ElectionProfile:
         for tok in option_list:
             o += 1
             cid = self.getCid(tok, '[tie] option')
+            if cid in self.tieOrder:
+                raise ElectionProfileError('bad blt: [tie] tiebreak sequence must list each candidate exactly once')
             self.tieOrder[cid] = o
         if len(self.tieOrder) != self.nCand:
             raise ElectionProfileError('bad blt: [tie] tiebreak sequence must list each candidate exactly once')
